@@ -259,6 +259,9 @@ theorem stepOp_hist (c : Cfg) (s : St) (h : Hist s) (op : Op) : Hist (stepOp c s
           simp only [send_log, send_seq] at h1 h2
           exact ⟨h1 ▸ h.ok, fun e he => by rw [← h1] at he; rw [← h2]; exact h.le e he⟩
       · exact ⟨h.ok, h.le⟩
+  | lost =>
+    simp only [stepOp, reportFatal, cleanup]
+    split <;> exact ⟨h.ok, h.le⟩
   | packet id ok order =>
     simp only [stepOp]
     obtain ⟨l, t, hnd, hlog, hseq⟩ := processPacket_log c s id ok order
